@@ -66,6 +66,19 @@ def lengths(ctx):
     return base
 
 
+def buffer_boundaries():
+    """Lengths just at and after whole multiples of the buffer sizes a chunked inflater is likely to use (1 KiB ... 128 KiB):
+    where a loop that stops when the INPUT is used up leaves output pending."""
+    out = []
+    for b in (1024, 4096, 8192, 16384, 32768, 65536, 131072):
+        for k in (1, 2, 3):
+            for r in (0, 1, 5, 150, 258, 259):
+                n = b * k + r
+                if n <= MAX and n not in out:
+                    out.append(n)
+    return out
+
+
 def run(ctx):
     from joserfc import jwe
     from joserfc.rfc7518.jwe_zips import DeflateZipModel, MAX_SIZE
@@ -74,9 +87,10 @@ def run(ctx):
     if MAX_SIZE != MAX:
         ctx.report(f"the decompression limit is {MAX_SIZE}, not 256000", {"MAX_SIZE": MAX_SIZE}, "limit")
     lines, meta = [], []
-    for n in lengths(ctx):
+    bb = [n for n in buffer_boundaries() if n not in lengths(ctx)]
+    for n in lengths(ctx) + bb:
         for kind in ("constant", "periodic", "random"):
-            if kind == "random" and n > 3 * MAX:
+            if kind == "random" and (n > 3 * MAX or n in bb):
                 continue
             p = data_of(kind, n, rng)
             for framing in ("raw", "zlib"):
